@@ -84,6 +84,11 @@ impl<'tcx> Hx<'tcx> {
             LitKind::Bool(b) => ("bool", J::Bool(*b)),
             LitKind::Err(_) => ("err", J::Null),
         };
+        if let LitKind::ByteStr(b, _) = &l.node {
+            // exact bytes (the lossy text above cannot represent format_args! templates)
+            let hex: String = b.as_byte_str().iter().map(|x| format!("{:02x}", x)).collect();
+            return J::obj(vec![("k", J::s("lit")), ("lk", J::s(lk)), ("v", v), ("hex", J::Str(hex))]);
+        }
         J::obj(vec![("k", J::s("lit")), ("lk", J::s(lk)), ("v", v)])
     }
 
